@@ -1621,9 +1621,15 @@ class Interp:
             return self.super_call(n, env)
         f = self.eval(n.func, env)
         args = []
+        # a list comprehension consumed directly by an order-insensitive builtin (`sorted([x for x in some_set])`): the set's iteration order cannot matter
+        order_free = isinstance(n.func, ast.Name) and n.func.id in ("sorted", "set", "frozenset", "sum", "any", "all", "min", "max", "len") and isinstance(f, BuiltinFn)
         for a in n.args:
             if isinstance(a, ast.Starred):
                 args.extend(self.iterate_all(self.eval(a.value, env)))
+            elif order_free and isinstance(a, ast.ListComp):
+                out = []
+                self.comp(a.generators, 0, Env(parent=env, module=env.module), lambda e, _a=a, _o=out: _o.append(self.eval(_a.elt, e)), ordered=False)
+                args.append(out)
             else:
                 args.append(self.eval(a, env))
         kwargs = {}
